@@ -99,14 +99,16 @@ def size_atom(fn, d, t, ev):
     return None
 
 
-def returning_paths(fn, g, cap=256):
-    """acyclic paths entry -> Return; loops traversed once (a back edge continues at the loop's exits). Returns list of (blocks, conds)."""
+def returning_paths(fn, g, cap=256, unroll=1):
+    """paths entry -> Return; each loop body is traversed `unroll` times (a back edge beyond that continues at the loop's exits).
+    Returns list of block tuples (blocks may repeat when unroll > 1)."""
     dom = g.dom()
     out = []
     budget = [cap]
     cr = g.can_return()
+    loops = {l["header"]: l for l in g.loops()}
 
-    def walk(b, acc, onpath):
+    def walk(b, acc, onpath, visits):
         if budget[0] <= 0:
             return
         acc = acc + (b,)
@@ -115,26 +117,31 @@ def returning_paths(fn, g, cap=256):
             out.append(acc)
             return
         succs = [s for s in g.succ[b] if s in cr]
-        # do-while abstraction: at the top of a `for`/`while` loop (header, or the straight-line blocks after it up to the deciding switch)
-        # take the body edge only; the exit edges are followed when the back edge is reached
         lp = g.innermost_loop(b)
         if lp is not None and len(succs) > 1 and g._straight_from(lp["header"], b, lp):
             inside = [s for s in succs if s in lp["body"]]
-            if inside:
+            # do-while abstraction on the first traversal; on later traversals both continuing and leaving are possible
+            if inside and visits.get(lp["header"], 1) <= 1:
                 succs = inside
         for s2 in succs:
-            if s2 in dom.get(b, ()):  # back edge
-                for l in g.loops():
-                    if l["header"] == s2:
-                        for (x, y) in l["exits"]:
-                            if y not in onpath and y in cr:
-                                walk(y, acc, onpath | {y})
+            if s2 in dom.get(b, ()):  # back edge to loop header s2
+                l = loops.get(s2)
+                if l is None:
+                    continue
+                v = visits.get(s2, 1)
+                if v < unroll:
+                    v2 = dict(visits)
+                    v2[s2] = v + 1
+                    walk(s2, acc, (onpath - set(l["body"])) | {s2}, v2)
+                for (x, y) in l["exits"]:
+                    if y not in onpath and y in cr:
+                        walk(y, acc, onpath | {y}, visits)
                 continue
             if s2 in onpath:
                 continue
-            walk(s2, acc, onpath | {s2})
+            walk(s2, acc, onpath | {s2}, visits)
 
-    walk(0, (), {0})
+    walk(0, (), {0}, {})
     if budget[0] <= 0:
         return None
     return out
